@@ -246,14 +246,15 @@ def c_handler_finalize(scenario):
     """routing by address on the interconnect the REAL SoCBusHandler builds: a slave sees a cycle only for addresses of its window, an address
     that matches no region is presented to no slave and is terminated exactly once (bus time-out) so that the master is not stuck"""
     import sys
-    from litex.soc.integration.soc import SoCBusHandler, SoCIORegion
+    from litex.soc.integration.soc import SoCBusHandler, SoCIORegion, SoCError
     from contracts import wblib
     nm, slaves, ic = {"1x1@nonzero": (1, [(0x1000_0000, 0x1000)], "shared"), "1x1@0": (1, [(0x0000_0000, 0x1000)], "shared"), "1x1@0,full": (1, [(0x0000_0000, 0x1_0000_0000)], "shared"),
                       "2x2,shared": (2, [(0x1000_0000, 0x1000), (0x2000_0000, 0x800)], "shared"), "2x2,crossbar": (2, [(0x1000_0000, 0x1000), (0x2000_0000, 0x800)], "crossbar"),
                       # a slave at origin 0 whose PORT is exactly as wide as its region (4 KiB memory on a 12-bit byte address port) beside another slave:
                       # the window is decided on the handler's address space, not on the slave port's
+                      "1x2,one-region-without-decoder": (1, [(0x1000_0000, 0x1000), (0x2000_0000, 0x1000)], "shared"), "2x2,one-region-without-decoder,crossbar": (2, [(0x1000_0000, 0x1000), (0x2000_0000, 0x1000)], "crossbar"),
                       "1x2,narrow-port@0": (1, [(0x0000_0000, 0x1000), (0x4000_0000, 0x1000)], "shared"), "2x2,narrow-port@0,crossbar": (2, [(0x0000_0000, 0x1000), (0x4000_0000, 0x1000)], "crossbar")}[scenario]
-    narrow = "narrow-port" in scenario
+    narrow = "narrow-port" in scenario; nodec = "without-decoder" in scenario
     TO = 4
     class Top(LiteXModule):
         def __init__(self):
@@ -261,8 +262,15 @@ def c_handler_finalize(scenario):
             self.ms = [wishbone.Interface(data_width=32, address_width=32, addressing="word") for _ in range(nm)]
             self.ss = [wishbone.Interface(data_width=32, address_width=(12 if narrow and k_ == 0 else 32), addressing="word") for k_, _ in enumerate(slaves)]
             for i, m in enumerate(self.ms): bus.add_master(f"m{i}", m)
-            for i, (s_, (o, sz)) in enumerate(zip(self.ss, slaves)): bus.add_slave(f"s{i}", s_, SoCRegion(origin=o, size=sz))
-    d = mk(Top); d.bus.finalize() if not d.bus.finalized else None
+            for i, (s_, (o, sz)) in enumerate(zip(self.ss, slaves)): bus.add_slave(f"s{i}", s_, SoCRegion(origin=o, size=sz, decode=not (nodec and i == 0)))
+    try:
+        d = mk(Top); d.bus.finalize() if not d.bus.finalized else None
+    except SoCError:
+        # a region whose decoder is disabled answers every address: beside a second slave it must be refused (or, if built, the routing clauses below decide)
+        if sys.stderr is None: sys.stderr = sys.__stderr__
+        if not nodec: raise
+        return dict(results=[res("ens.route.undecoded-region-beside-another-slave:refused-or-routed-by-address", "ensures", OK, 0, "executed", info="refused (SoCError)")],
+                    functions=["litex.soc.integration.soc.SoCBusHandler.do_finalize (regions with decode=False)"], samples=[dict(scenario=scenario)])
     if sys.stderr is None: sys.stderr = sys.__stderr__
     ins = []
     for m in d.ms: ins += wblib.m_inputs(m)
@@ -298,4 +306,4 @@ def c_handler_finalize(scenario):
 
 _cases_c06 = cases
 def cases(tier):
-    return _cases_c06(tier) + [Case(f"SoCBusHandler.finalize({sc})", c_handler_finalize, sc) for sc in ("1x1@nonzero", "1x1@0", "1x1@0,full", "2x2,shared", "2x2,crossbar", "1x2,narrow-port@0", "2x2,narrow-port@0,crossbar")]
+    return _cases_c06(tier) + [Case(f"SoCBusHandler.finalize({sc})", c_handler_finalize, sc) for sc in ("1x1@nonzero", "1x1@0", "1x1@0,full", "2x2,shared", "2x2,crossbar", "1x2,narrow-port@0", "2x2,narrow-port@0,crossbar", "1x2,one-region-without-decoder", "2x2,one-region-without-decoder,crossbar")]
